@@ -16,8 +16,12 @@ def plan(tier, seed):
             dict(name="k_xyb_w_inverse", family="W", timeout=2400, mem_gb=12, replay=X.replay_xyb, dir="inv", covers=["typical XYB explored"],
                  obligation="LinearRgb::from(Xyb) on a 1-pixel image is bit-identical to Inv*((unmix(XYB) - cbrt(-b))^3 - b) in the same operation order (cbrtf stubbed on both sides); dimensions preserved",
                  sym="XYB on the fixed-point grid k/64: X in [-0.5,0.5], Y,B in [0,1.5625] (symbolic)"),
-            dict(name="k_xyb_w_forward", family="W", timeout=2400, mem_gb=12, replay=X.replay_xyb, dir="fwd", covers=["negative mix (clamped) explored", "bright pixel explored"],
-                 obligation="forward transform structure (see C04): the cube root the inverse undoes is applied to A*rgb+b", sym="pixel on the grid k/16 in [-1,4]^3"),
+            dict(name="k_xyb_w_forward_x", family="W", timeout=2400, mem_gb=12, replay=X.replay_xyb, dir="fwd", covers=["negative mix (clamped) explored", "bright pixel explored"],
+                 obligation="forward transform structure (see C04): the cube root the inverse undoes is applied to A*rgb+b", sym="pixel on the grid k/8 in [-1,4]^3"),
+            dict(name="k_xyb_w_forward_y", family="W", timeout=2400, mem_gb=12, replay=X.replay_xyb, dir="fwd", covers=["negative mix (clamped) explored", "bright pixel explored"],
+                 obligation="forward transform structure (see C04): the cube root the inverse undoes is applied to A*rgb+b", sym="pixel on the grid k/8 in [-1,4]^3"),
+            dict(name="k_xyb_w_forward_b", family="W", timeout=2400, mem_gb=12, replay=X.replay_xyb, dir="fwd", covers=["negative mix (clamped) explored", "bright pixel explored"],
+                 obligation="forward transform structure (see C04): the cube root the inverse undoes is applied to A*rgb+b", sym="pixel on the grid k/8 in [-1,4]^3"),
         ]
 
     def g(ctx):
